@@ -423,8 +423,12 @@ Proof. vm_compute. reflexivity. Qed.
 (** the planner's own CREATE TABLE with generated columns cx and c *)
 Definition w_gen_text : bytes :=
   B "CREATE TABLE `t` (`a` int NULL, `cx` int NULL AS (a + 1) STORED, `c` int NULL AS (a * 2) STORED)".
-Lemma w_gen_prefix : set_gen_expr (B "c") w_gen_text = GenOk (B "(a + 1)") /\
-                     set_gen_expr (B "cx") w_gen_text = GenOk (B "(a + 1)").
+Lemma w_gen_prefix : set_gen_expr_old (B "c") w_gen_text = GenOk (B "(a + 1)") /\
+                     set_gen_expr_old (B "cx") w_gen_text = GenOk (B "(a + 1)").
+Proof. vm_compute. split; reflexivity. Qed.
+(** since the fix (white space after the name) each column gets its own expression *)
+Lemma w_gen_prefix_fixed : set_gen_expr (B "c") w_gen_text = GenOk (B "(a * 2)") /\
+                           set_gen_expr (B "cx") w_gen_text = GenOk (B "(a + 1)").
 Proof. vm_compute. split; reflexivity. Qed.
 
 (** a string holding AS ( inside a generated expression (planner's text) *)
@@ -638,30 +642,42 @@ Qed.
     [mid] (type, NULL / NOT NULL), AS, spaces, the wrapped expression [e]; if no match of the
     column's regexp starts before [c] and no further "AS (" follows in the same comma-free
     stretch, setGenExpr returns exactly [e]. *)
-Theorem set_gen_expr_printed name pre c sp1 mid w e rest :
-  name_ok name -> open_ch c = true -> forallb is_space sp1 = true ->
+Lemma space_not_quote c : is_space c = true -> is_quote c = false.
+Proof.
+  unfold is_space, is_quote. intro H.
+  repeat (apply orb_true_iff in H; destruct H as [H|H]); apply N.eqb_eq in H; subst; reflexivity.
+Qed.
+Lemma skip_quotes_bt_space s0 r : is_space s0 = true -> skip_while is_quote (ch_bt :: s0 :: r) = s0 :: r.
+Proof.
+  intro H. cbn [skip_while]. change (is_quote ch_bt) with true. cbn iota. rewrite (space_not_quote _ H). reflexivity.
+Qed.
+
+(** (since the fix of the regexp the text after the closing quote of the name starts with a white-space byte [s0]) *)
+Theorem set_gen_expr_printed name pre c sp1 s0 mid w e rest :
+  name_ok name -> open_ch c = true -> forallb is_space sp1 = true -> is_space s0 = true ->
   forallb not_comma mid = true -> forallb is_space w = true -> wrapped e ->
   last_as (tl e ++ rest) = None ->
   no_start_before _ (match_gen_at name)
-    (pre ++ c :: sp1 ++ bt_ident name ++ mid ++ K_AS ++ w ++ e ++ rest) (length pre) = true ->
-  set_gen_expr name (pre ++ c :: sp1 ++ bt_ident name ++ mid ++ K_AS ++ w ++ e ++ rest) = GenOk e.
+    (pre ++ c :: sp1 ++ bt_ident name ++ (s0 :: mid) ++ K_AS ++ w ++ e ++ rest) (length pre) = true ->
+  set_gen_expr name (pre ++ c :: sp1 ++ bt_ident name ++ (s0 :: mid) ++ K_AS ++ w ++ e ++ rest) = GenOk e.
 Proof.
-  intros Hn Hc Hs1 Hmid Hw He Hlast Hpre.
+  intros Hn Hc Hs1 Hs0 Hmid Hw He Hlast Hpre.
   destruct He as (b & p & -> & Hb). set (e := ch_lp :: b ++ [ch_rp]) in *.
   assert (wrapped e) as He by (exists b, p; auto).
   unfold set_gen_expr. destruct Hn as [Hne Hwd]. rewrite Hwd. cbn [negb orb].
   destruct name as [|n0 name'] eqn:En; [contradiction|]. rewrite <- En in *. cbn iota.
   rewrite find_gen_first, (find_first_skip _ _ _ _ Hpre).
-  assert (match_gen_at name (c :: sp1 ++ bt_ident name ++ mid ++ K_AS ++ w ++ e ++ rest) = Some (e ++ rest)) as Hm.
+  assert (match_gen_at name (c :: sp1 ++ bt_ident name ++ (s0 :: mid) ++ K_AS ++ w ++ e ++ rest) = Some (e ++ rest)) as Hm.
   { unfold match_gen_at. rewrite Hc. unfold bt_ident.
-    change (sp1 ++ (ch_bt :: name ++ [ch_bt]) ++ mid ++ K_AS ++ w ++ e ++ rest)
-      with (sp1 ++ ch_bt :: (name ++ [ch_bt]) ++ mid ++ K_AS ++ w ++ e ++ rest).
+    change (sp1 ++ (ch_bt :: name ++ [ch_bt]) ++ (s0 :: mid) ++ K_AS ++ w ++ e ++ rest)
+      with (sp1 ++ ch_bt :: (name ++ [ch_bt]) ++ (s0 :: mid) ++ K_AS ++ w ++ e ++ rest).
     rewrite skip_spaces_tail by (exact Hs1 || reflexivity).
     rewrite <- app_assoc. rewrite skip_quotes_name by (split; [rewrite En; discriminate|exact Hwd]).
     rewrite lit_cs_self.
-    change ([ch_bt] ++ mid ++ K_AS ++ w ++ e ++ rest) with ((ch_bt :: mid) ++ K_AS ++ w ++ (ch_lp :: b ++ [ch_rp]) ++ rest).
-    apply last_as_at; [simpl; rewrite Hmid; reflexivity|exact Hw|exact Hlast]. }
-  destruct (c :: sp1 ++ bt_ident name ++ mid ++ K_AS ++ w ++ e ++ rest) eqn:Efull; [discriminate|].
+    change ([ch_bt] ++ (s0 :: mid) ++ K_AS ++ w ++ e ++ rest) with (ch_bt :: s0 :: mid ++ K_AS ++ w ++ (ch_lp :: b ++ [ch_rp]) ++ rest).
+    rewrite (skip_quotes_bt_space s0 _ Hs0). rewrite Hs0.
+    apply last_as_at; [exact Hmid|exact Hw|exact Hlast]. }
+  destruct (c :: sp1 ++ bt_ident name ++ (s0 :: mid) ++ K_AS ++ w ++ e ++ rest) eqn:Efull; [discriminate|].
   cbn [find_first]. rewrite Hm. rewrite (scan_expr_wrapped e rest He).
   subst e. reflexivity.
 Qed.
